@@ -1,7 +1,7 @@
 (* C17 — wire formats round-trip, and identity depends only on content.
    Statements only; every proof is [exact lemma]. *)
 From NG Require Import Common.Tactics Codec.Bigint Codec.Wire Codec.WireProofs Codec.TxCodec Codec.TxCodecProofs Codec.ItemCodec Codec.ItemCodecProofs.
-From NG Require Import Codec.MptCodec Codec.MptCodecProofs Codec.MptCodecTrie Codec.StateCodec Codec.StateCodecProofs Codec.ExecCodec Codec.ExecCodecProofs Codec.NetCodec Codec.NetCodecProofs.
+From NG Require Import Codec.MptCodec Codec.MptCodecProofs Codec.MptCodecTrie Codec.StateCodec Codec.StateCodecProofs Codec.ExecCodec Codec.ExecCodecProofs Codec.NetCodec Codec.NetCodecProofs Codec.ZeroExamples.
 Open Scope Z_scope.
 
 (* One theorem per type: the conjunction of its family (decode_encode, decode_wf, decode_canonical, decode_total,
@@ -360,3 +360,15 @@ Proof. split; [exact (proj1 ex_tx_wf)|exact ex_tx_roundtrip]. Qed.
 (* non-vacuity: a Map with Integer, Boolean and ByteString keys holding an Array of a Struct and -2^255 *)
 Example C17_item_example : item_wf ex_item /\ deserialize (enc_item ex_item) = Some ex_item /\ count_item ex_item = 17%nat.
 Proof. split; [exact ex_item_wf|]. split; vm_compute; reflexivity. Qed.
+
+(* zero values are inside the wf premises where the code accepts them (coq/Codec/ZeroExamples.v has one per type):
+   the genesis header of a StateRootInHeader network (PrevStateRoot = 0), a block without transactions, a transaction
+   with zero fees / nonce / ValidUntilBlock, a state root with zero root and no witness, an execution result with an
+   empty stack and an empty fault string *)
+Example C17_zero_values_example :
+  (header_wf true (zheader true) /\ header_wf false (zheader false)) /\
+  (block_wf true (Block (zheader true) []) /\ block_wf false (Block (zheader false) [])) /\
+  (tx_wf ztx /\ tx_from_bytes (write_tx ztx) = Some ztx) /\
+  (mptroot_wf (MptRoot 0 0 z32 []) /\ mptroot_wf (MptRoot 0 0 z32 [zwit])) /\
+  aer_wf zaer.
+Proof. exact (conj zero_header_wf (conj zero_block_wf (conj zero_tx_wf (conj zero_mptroot_wf (proj1 zero_aer_wf))))). Qed.
